@@ -299,8 +299,8 @@ func (s *Sim) genTx() *TxSpec {
 		return t
 	case k < 71: // proposal
 		var from Key
-		if len(s.sets[s.height]) > 0 && r.Intn(6) > 0 {
-			from, _ = s.key(s.sets[s.height][r.Intn(len(s.sets[s.height]))].Addr)
+		if lv := s.lastVals(); len(lv) > 0 && r.Intn(6) > 0 {
+			from, _ = s.key(lv[r.Intn(len(lv))])
 		} else {
 			from = s.pick(s.all)
 		}
@@ -357,7 +357,30 @@ func (s *Sim) genTx() *TxSpec {
 		if len(s.props) == 0 {
 			return s.genTx()
 		}
+		if r.Intn(4) > 0 { // forget proposals whose window has closed
+			var live []propInfo
+			for _, q := range s.props {
+				if s.height <= q.End {
+					live = append(live, q)
+				}
+			}
+			if len(live) == 0 {
+				return s.genTx()
+			}
+			s.props = live
+		}
 		p := s.props[r.Intn(len(s.props))]
+		if r.Intn(5) > 0 { // mostly a proposal whose voting window is open
+			var open []propInfo
+			for _, q := range s.props {
+				if q.Start <= s.height && s.height <= q.End {
+					open = append(open, q)
+				}
+			}
+			if len(open) > 0 {
+				p = open[r.Intn(len(open))]
+			}
+		}
 		var from Key
 		if len(p.Voters) > 0 && r.Intn(8) > 0 {
 			from, _ = s.key(p.Voters[r.Intn(len(p.Voters))])
@@ -521,6 +544,9 @@ func (s *Sim) Step() error {
 		b.Txs = append(b.Txs, bt)
 		o.Delivers = append(o.Delivers, d)
 		s.H.Stats["tx:"+bt.Spec.Note+fmt.Sprintf(":code%d", d.Code)]++
+		if d.Code != 0 {
+			s.H.Stats[fmt.Sprintf("why:%s:r%d", bt.Spec.Note, d.Reason)]++
+		}
 		if d.Panic != "" {
 			s.H.Blocks, s.H.Obs = append(s.H.Blocks, b), append(s.H.Obs, o)
 			return fmt.Errorf("DeliverTx panicked: %s", d.Panic)
@@ -545,6 +571,33 @@ func (s *Sim) Step() error {
 	}
 	if len(o.ValUpdates) > 0 {
 		s.H.Stats["blocks-with-valupdates"]++
+	}
+	for _, e := range o.BeginEvts {
+		if strings.HasPrefix(e, "punishment.stake") && !strings.Contains(e, "slashed=0}") {
+			s.H.Stats["ev:slash"]++
+		}
+		if strings.HasPrefix(e, "punishment.gov") && !strings.Contains(e, "slashed=0}") {
+			s.H.Stats["ev:slash-gov"]++
+		}
+		if strings.HasPrefix(e, "reward") && !strings.Contains(e, "issued=0}") {
+			s.H.Stats["ev:reward-block"]++
+		}
+	}
+	for _, e := range o.EndEvts {
+		for _, k := range []string{"frozen", "removed", "applied"} {
+			if strings.HasPrefix(e, "proposal{"+k) {
+				s.H.Stats["ev:proposal-"+k]++
+			}
+		}
+	}
+	if len(s.H.Obs) >= 2 {
+		prev := s.H.Obs[len(s.H.Obs)-2].Frozen
+		if len(o.Frozen) < len(prev) {
+			s.H.Stats["ev:refund-block"]++
+		}
+		if len(o.Frozen) > len(prev)+0 {
+			s.H.Stats["ev:freeze-block"]++
+		}
 	}
 	s.refreshShadow()
 	return nil
